@@ -369,7 +369,7 @@ func (rm *RegistrationManager) parseRegMessage(msg []byte) ([]*DecoyRegistration
 func (rm *RegistrationManager) NewRegistration(c2s *pb.ClientToStation, conjureKeys *core.ConjureSharedKeys, includeV6 bool, registrationSource *pb.RegistrationSource) (*DecoyRegistration, error) {
 	gen := uint(c2s.GetDecoyListGeneration())
 	clientLibVer := uint(c2s.GetClientLibVersion())
-	phantomAddr, err := rm.PhantomSelector.Select(
+	phantomAddr, err := rm.Selector().Select(
 		conjureKeys.ConjureSeed, gen, clientLibVer, includeV6)
 
 	if err != nil {
@@ -504,11 +504,11 @@ func (rm *RegistrationManager) NewRegistrationC2SWrapper(c2sw *pb.C2SWrapper, in
 	}
 
 	reg.registrationAddr = clientAddr
-	reg.regCC, err = rm.GeoIP.CC(reg.registrationAddr)
+	reg.regCC, err = rm.GeoIPDatabase().CC(reg.registrationAddr)
 	if err != nil {
 		return nil, fmt.Errorf("failed geoip cc lookup: %w", err)
 	}
-	reg.regASN, err = rm.GeoIP.ASN(reg.registrationAddr)
+	reg.regASN, err = rm.GeoIPDatabase().ASN(reg.registrationAddr)
 	if err != nil {
 		return nil, fmt.Errorf("failed geoip asn lookup: %w", err)
 	}
@@ -571,7 +571,7 @@ func handleConnectingTpReg(regManager *RegistrationManager, reg *DecoyRegistrati
 			go func(transport ConnectingTransport) {
 				defer cancelFunc()
 
-				cc, err := regManager.GeoIP.CC(reg.registrationAddr)
+				cc, err := regManager.GeoIPDatabase().CC(reg.registrationAddr)
 				if err != nil {
 					logger.Errorln("Failed to get CC:", err)
 					return
@@ -579,7 +579,7 @@ func handleConnectingTpReg(regManager *RegistrationManager, reg *DecoyRegistrati
 
 				var asn uint = 0
 				if cc != "unk" {
-					asn, err = regManager.GeoIP.ASN(reg.registrationAddr)
+					asn, err = regManager.GeoIPDatabase().ASN(reg.registrationAddr)
 					if err != nil {
 						logger.Errorln("Failed to get ASN:", err)
 						return
